@@ -49,6 +49,7 @@ type traceIn struct {
 	leaves           []traceLeaf
 	limit, minAvail  int64
 	policy, subLimit int64 // policy 0 none, 1 sub-group policy without topology, 2 with hard topology
+	pre              int64 // 1: an earlier session was opened on the same cached job while the tier names were shifted one tier up
 	jobName, subName int64 // how the tier limit is given: 0 number, 1 valid tier name ("tier<limit>"), 2 a tier name no HyperNode carries
 	notReady, pin    int64 // notReady: two extra HyperNodes claiming each other; pin: NominatedHyperNode of the first sub-job (0 = none)
 	annot            int64 // leaf HyperNode the scheduler remembers as the job's AllocatedHyperNode (0 = lost by a restart)
@@ -69,6 +70,9 @@ func decTrace(in []int64) traceIn {
 	}
 	if len(job) > 8 {
 		t.jobName, t.subName = job[7], job[8]
+	}
+	if len(job) > 9 {
+		t.pre = job[9]
 	}
 	np := int(r.next())
 	for i := 0; i < np; i++ {
@@ -284,7 +288,14 @@ func runTrace(in []int64) []int64 {
 		}
 	}
 	for _, hn := range order {
-		if err := view.UpdateHyperNode(hn); err != nil {
+		first := hn
+		if t.pre != 0 {
+			// before the earlier session the HyperNodes of tier t carry the name "tier<t-1>":
+			// every tier name denotes the tier above the one it denotes later
+			first = hn.DeepCopy()
+			first.Spec.TierName = fmt.Sprintf("tier%d", hn.Spec.Tier-1)
+		}
+		if err := view.UpdateHyperNode(first); err != nil {
 			panic("consistent forest rejected: " + err.Error())
 		}
 	}
@@ -332,6 +343,18 @@ func runTrace(in []int64) []int64 {
 		{Name: predicates.PluginName, EnabledPredicate: &yes},
 		{Name: ntaName, EnabledNodeOrder: &yes, EnabledHyperNodeOrder: &yes, EnabledHyperNodeGradient: &yes},
 	}}}
+	if t.pre != 0 {
+		// an earlier scheduling session on the same cached job (no PodGroup update in between);
+		// afterwards the HyperNodes are re-labelled with their final tier names.  A tier limit
+		// given by name must be resolved anew in every session.
+		early := framework.OpenSession(sc, tiers, nil)
+		framework.CloseSession(early)
+		for _, hn := range hnObjs {
+			if err := view.UpdateHyperNode(hn); err != nil {
+				panic("re-labelling rejected: " + err.Error())
+			}
+		}
+	}
 	ssn := framework.OpenSession(sc, tiers, nil)
 	defer func() {
 		framework.CloseSession(ssn)
@@ -660,7 +683,11 @@ func genTrace(r *vh.Rng) (in []int64, nontrivial bool, desc any) {
 	}
 	jobName := int64(vh.Pick(r, []int{0, 0, 0, 1, 1, 2}))
 	subName := int64(vh.Pick(r, []int{0, 0, 1, 1, 1, 2}))
-	in = append(in, 9, limit, minAvail, policy, sub, annot, notReady, pin, jobName, subName)
+	pre := int64(0)
+	if r.Chance(1, 4) {
+		pre = 1
+	}
+	in = append(in, 10, limit, minAvail, policy, sub, annot, notReady, pin, jobName, subName, pre)
 	in = append(in, int64(np))
 	statuses := []int64{}
 	oneStatus := int64(r.Range(1, 4)) // same allocated status for all placed pods, or a mixture
@@ -693,5 +720,5 @@ func genTrace(r *vh.Rng) (in []int64, nontrivial bool, desc any) {
 		in = append(in, 3, 0, nom, role)
 	}
 	return in, true, map[string]any{"depth": depth, "leaves": nodesOf, "limit": limit, "policy": policy, "subLimit": sub,
-		"minAvailable": minAvail, "placed": statuses, "placedLeafFull": full, "remembered": annot, "notReady": notReady, "pinned": pin, "jobLimitBy": []string{"number", "name", "unknown-name"}[jobName], "subLimitBy": []string{"number", "name", "unknown-name"}[subName]}
+		"minAvailable": minAvail, "placed": statuses, "placedLeafFull": full, "remembered": annot, "notReady": notReady, "pinned": pin, "earlierSession": pre, "jobLimitBy": []string{"number", "name", "unknown-name"}[jobName], "subLimitBy": []string{"number", "name", "unknown-name"}[subName]}
 }
